@@ -27,10 +27,16 @@ TRUSTED = ['hand-written Gallina mirrors Model/OpTree.v, Model/AutOp.v, Model/De
            'independent path enumerations of tree / automaton semantics in harness/props/c17.py and graphemit.path_poly (search only)']
 PARTIAL = ('proved for all inputs (Properties/C17.v): from_automaton_den for consistent automata (den of the returned graph = sum over '
            'automaton paths, 0 for other lengths, dead states contribute nothing), dense meaning of chains, trees (with >= 1 edge) and '
-           'layered graphs in both directions; returned graphs passed the own is_consistent assertion of the code. Not proved in general, '
-           'evaluated by the kernel on every generated case instead (check_from_automaton, check_from_optrees, check_aut_den, '
-           'check_optrees_den): graph length = L, consistency of the from_optrees graph, that the assertions of from_automaton never fire '
-           'when a path exists; see Properties/C17.v for the state of from_optrees_raw_den')
+           'layered graphs in both directions; "both graphs are consistent and of the requested length": for a consistent automaton the '
+           'graph from_automaton builds is well formed in the sense of C16 (no dangling nodes), has glength = L and can never fail '
+           'is_consistent (any fuel), so the final assertion of from_automaton is unreachable as a failure; for every accepted tree list '
+           'with non-negative start sites the pre-simplify graph can never fail is_consistent, and for a non-empty list it is well formed '
+           'with glength = L; through C16, simplify() then returns a well-formed (hence consistent) graph with the same meaning, the same '
+           'length L and no more nodes/edges. Side conditions shown necessary by kernel-checked examples (inconsistent automaton with a '
+           'dangling node and length 1 instead of 3; empty tree list; negative start site). Not proved in general, evaluated by the kernel '
+           'on every generated case instead (check_from_automaton, check_aut_den): that the three active-layer assertions of from_automaton '
+           'never fire when a path exists and that the model fuel of the level search suffices; graph length / consistency are still '
+           'evaluated per case as a cross-check of the theorems')
 ASSUMPTIONS = ['CPython set iteration order does not influence from_automaton (active sets are intersected and sorted)',
                'operator maps are total on the operator ids in use and consist of square d x d matrices, d >= 1']
 
